@@ -1,0 +1,84 @@
+//go:build verif
+
+// Verification hooks (compiled only with -tags verif; see /verif/DESIGN.md §5).
+// Add-only: nothing here changes behaviour unless one of the VERIF_* variables is set.
+//
+//	VERIF_NO_DB_HEALTHCHECK=1  register a no-op writer health-check plugin, so that
+//	                           writer.Init reaches the real route registration without a
+//	                           ClickHouse holding qryn's tables.
+//	VERIF_ROUTES_OUT=<file>    once main has installed its *mux.Router, walk it and write the
+//	                           route table (one JSON object per line) to <file>.
+//	VERIF_EXIT_ON_STDIN_EOF=1  exit when stdin reaches EOF: the harness holds the write end of
+//	                           a pipe, so the process cannot outlive a harness that was killed.
+package main
+
+import (
+	"encoding/json"
+	"io"
+	"net/http"
+	"os"
+	"strings"
+	"time"
+
+	"github.com/gorilla/mux"
+	"github.com/metrico/qryn/writer/ch_wrapper"
+	"github.com/metrico/qryn/writer/plugins"
+)
+
+type verifRoute struct {
+	Template   string   `json:"template"`
+	Methods    []string `json:"methods"`
+	HasHandler bool     `json:"has_handler"`
+	Prefix     bool     `json:"prefix,omitempty"` // PathPrefix route (template matches a prefix)
+	Depth      int      `json:"depth"`            // number of ancestor routes (sub-router nesting)
+	NoTemplate bool     `json:"no_template,omitempty"`
+}
+
+func init() {
+	if os.Getenv("VERIF_NO_DB_HEALTHCHECK") == "1" {
+		plugins.RegisterHealthCheckPlugin(func(conn ch_wrapper.IChClient, isDistributed bool) {})
+	}
+	if out := os.Getenv("VERIF_ROUTES_OUT"); out != "" {
+		go verifDumpRoutes(out)
+	}
+	if os.Getenv("VERIF_EXIT_ON_STDIN_EOF") == "1" {
+		go func() {
+			io.Copy(io.Discard, os.Stdin)
+			os.Exit(0)
+		}()
+	}
+}
+
+func verifDumpRoutes(out string) {
+	for i := 0; i < 2400; i++ {
+		time.Sleep(25 * time.Millisecond)
+		req, _ := http.NewRequest("GET", "/", nil)
+		h, _ := http.DefaultServeMux.Handler(req)
+		r, ok := h.(*mux.Router)
+		if !ok {
+			continue
+		}
+		var sb strings.Builder
+		r.Walk(func(route *mux.Route, router *mux.Router, ancestors []*mux.Route) error {
+			v := verifRoute{Depth: len(ancestors), HasHandler: route.GetHandler() != nil}
+			tpl, err := route.GetPathTemplate()
+			if err != nil {
+				v.NoTemplate = true
+			}
+			v.Template = tpl
+			if re, err := route.GetPathRegexp(); err == nil && !strings.HasSuffix(re, "$") {
+				v.Prefix = true
+			}
+			v.Methods, _ = route.GetMethods()
+			b, _ := json.Marshal(v)
+			sb.Write(b)
+			sb.WriteByte('\n')
+			return nil
+		})
+		tmp := out + ".tmp"
+		if os.WriteFile(tmp, []byte(sb.String()), 0644) == nil {
+			os.Rename(tmp, out)
+		}
+		return
+	}
+}
